@@ -532,3 +532,59 @@ Definition run_read_ix (e : entry) (am : bool) (st : stored) (xs : list ixframe)
 (* the stored pixel values, frame by frame: what the object must still hold after any sequence of reads
    (reads are functions of the stored object; they never change it) *)
 Definition run_stored_state (st : stored) : val := VL (map (fun f => vz_list (fpix f)) (s_frames st)).
+
+(* ------------------------------------------------------------------ *)
+(* get_pixels_by_dimension_index_values with an explicit list of dimension index
+   pointers (any non-empty selection of the plane dimensions of the object, in any
+   order, possibly naming a dimension twice).
+   Every FrameLUT row carries its DimensionIndexValues along ALL plane dimensions
+   of the object (d_ix, in DimensionIndexSequence order, ReferencedSegmentNumber
+   excluded).  A pointer is the position of a dimension in that list (the
+   _dim_ind_col_names look-up), -1 stands for ReferencedSegmentNumber and anything
+   else for a tag that is not a dimension of the object.  A requested row of values
+   addresses the stored frames whose index values along the pointed dimensions are
+   exactly the row (the `SELECT DISTINCT cols` existence check and the
+   `F.col = L.col AND ...` join of _iterate_indices_for_stack).  Planes are then
+   NAMED by the position of the first stored frame with that combination of
+   values (-1: no stored frame), which reduces the read to [read EDimIdx]. *)
+Record dframe := mkDf { d_frame : frame; d_ix : list Z }.
+Definition proj (ptrs ix : list Z) : list Z := map (fun p => nth (Z.to_nat p) ix 0) ptrs.
+Fixpoint first_idx (p : dframe -> bool) (l : list dframe) (i : Z) : Z :=
+  match l with
+  | [] => -1
+  | f :: r => if p f then i else first_idx p r (i + 1)
+  end.
+Definition row_matches (ptrs row : list Z) (f : dframe) : bool := zlist_eqb (proj ptrs (d_ix f)) row.
+Definition dim_key (ptrs : list Z) (dfs : list dframe) (row : list Z) : Z :=
+  first_idx (row_matches ptrs row) dfs 0.
+Definition dim_view (ptrs : list Z) (dfs : list dframe) : list frame :=
+  map (fun f => mkFrame (dim_key ptrs dfs (proj ptrs (d_ix f))) (fseg (d_frame f)) (fpix (d_frame f))) dfs.
+(* the loop over the pointers given by the caller: first offending pointer decides *)
+Fixpoint ptr_check (nd : Z) (ptrs : list Z) : option string :=
+  match ptrs with
+  | [] => None
+  | p :: r =>
+      if p =? -1 then Some "ValueError"%string
+      else if (p <? 0) || (nd <=? p) then Some "KeyError"%string
+      else ptr_check nd r
+  end.
+(* ptrs = None: dimension_index_pointers=None, all plane dimensions of the object in their own order *)
+Definition read_dim (assert_missing : bool) (st : stored) (nd : Z) (dfs : list dframe)
+           (ptrs : option (list Z)) (rows : list (list Z)) (req : list Z) (o : opts) : res (dtype * output) :=
+  if zlen req =? 0 then Err "ValueError"
+  else
+    let chk := match ptrs with
+               | None => None
+               | Some ps => if zlen ps =? 0 then Some "ValueError"%string else ptr_check nd ps
+               end in
+    match chk with
+    | Some k => Err k
+    | None =>
+        let ps := match ptrs with Some ps => ps | None => zrange 0 nd end in
+        if zlen rows =? 0 then Err "ValueError"
+        else if negb (forallb (fun r => zlen r =? zlen ps) rows) then Err "ValueError"
+        else read EDimIdx assert_missing (with_frames st (dim_view ps dfs)) (map (dim_key ps dfs) rows) req o
+    end.
+Definition run_read_dim (am : bool) (st : stored) (nd : Z) (dfs : list dframe) (ptrs : option (list Z))
+           (rows : list (list Z)) (req : list Z) (o : opts) : val :=
+  vres (fun r => VL [VS (dtype_name (fst r)); voutput (snd r)]) (read_dim am st nd dfs ptrs rows req o).
